@@ -186,6 +186,18 @@ def inline_base_entry_points(ctx, prog):
             h = _inl.inline_in_place(prog, f, skip={'_check', '_update', '_initialize', '_compute', '_accumulate', '_initialize_accumulators'})
             if h:
                 ctx.note(f'{f.key}: helpers inlined before analysis: {h}')
+    # formulas moved out of a `_compute` / `compute` method into private module-level functions are read as part of the method
+    for ci in list(prog.classes.values()):
+        if not (ci.mod.name.startswith('scared.distinguishers') or ci.mod.name == 'scared.ttest'):
+            continue
+        for m in ('_compute', 'compute', '_compute_metric'):
+            f = ci.methods.get(m)
+            if f is None:
+                continue
+            methods = {g.name for c_ in prog.mro(ci) for g in c_.methods.values()} | {g.name for c_ in prog.subclasses_of(ci) for g in c_.methods.values()}
+            h = _inl.inline_in_place(prog, f, skip=methods)
+            if h:
+                ctx.note(f'{f.key}: module-level helpers inlined before analysis: {h}')
 
 
 def binding_constants(prog, attr):
